@@ -702,6 +702,7 @@ TLAPS_MODULES = {
     "alg": ("MapProofAlg.tla", "MapProofEq.tla"),
     "eq": ("MapProofEq.tla",),
     "scan": ("MapProofAlg.tla",),
+    "disj": ("MapProofDisj.tla",),
 }
 
 
@@ -827,6 +828,7 @@ def run_check(pid, tier, seed):
         summary["tlaps_inductive_invariant"] = tlaps_proof()
     if pid in ("C13", "C18"):
         summary["apalache_disjoint"] = apalache_disjoint(tier)
+        summary["tlaps_inductive_invariant"] = tlaps_proof("disj")
     if pid == "C12":
         summary["tlaps_inductive_invariant"] = tlaps_proof()
     if pid == "C08":
